@@ -210,8 +210,13 @@ class Prefixed(BaseModel):
     # def __get_validators__(cls):
     #     yield cls.validate
 
+    def _value(self) -> Decimal:
+        """The exact decimal value, i.e. `number` times ten to the power of `prefix`."""
+        return _exactly(lambda: self.number.scaleb(self.prefix.value), self.number)
+
     def __hash__(self):
-        return hash((self.number, self.prefix))
+        # Consistent with `__eq__`: numbers denoting one value, e.g. `1000 * m` and `1 * UNIT`, hash equally.
+        return hash(self._value())
 
     def __int__(self) -> int:
         return int(self.number) * 10**self.prefix.value
